@@ -32,6 +32,14 @@ Definition run_pipe {T : Type} (n : N) (f : Z -> T -> T) (a : T) : option T :=
 Definition model (c : case) : option (list Z) :=
   match fam c with
   | 2%N | 3%N => run_pipe (arity c) fam2 (input c)
+  | 4%N =>
+      (* the re-entrant stage: the inner call is a call of the same generated definition *)
+      match run_pipe (arity c) fam2 [100] with
+      | Some inner =>
+          run_pipe (arity c) (fun i l => if Z.eqb i ((Z.of_N (arity c) + 1) / 2)
+                                         then l ++ [i; Z.of_nat (length inner)] else l ++ [i]) (input c)
+      | None => None
+      end
   | f => match input c with [x] => option_map (fun y => [y]) (run_pipe (arity c) (fam01 f) x) | _ => None end
   end.
 Definition mismatches (cs : list case) : list N := idx_where (fun c => negb (agree (model c) (observed c))) 0%N cs.
